@@ -85,10 +85,44 @@ def two_roll_cases(chk, rng):
                     return chk.fail('two-edit', f"{name}: pass built with height={h}, {'all members read, ' if read_first else ''}height assigned {h2}"
                                     f"{' and the cache re-evaluated' if read_first else ''}: gap = {float(rpe.gap)}, the new height calls for {want_gap}; faces at "
                                     f"{float(upe[fmask][:, 1].max()) if fmask.any() else float('nan')}", dict(data, history='height assigned again', read_first=read_first))
+            # a pass constructed without its opening, looked at (representations), and given the opening afterwards
+            from common import look_at
+            for member, val in (('gap', gap), ('height', h)):
+                rpl = RollPass(label="p", roll=mkroll(g))
+                look_at(rpl, html=False)
+                setattr(rpl, member, val)
+                upl = np.array(rpl.contour_lines.geoms[0].coords)
+                if abs(float(rpl.gap) - gap) > 1e-12 * scale or abs(float(rpl.height) - h) > 1e-12 * scale or (fmask.any() and np.abs(upl[fmask][:, 1] - gap / 2).max() > 1e-12 * scale):
+                    return chk.fail('two-observer', f"{name}: pass constructed without an opening, looked at (repr, __attrs__), then {member} = {val} assigned: gap "
+                                    f"{float(rpl.gap)}, height {float(rpl.height)}, faces at {float(upl[fmask][:, 1].max()) if fmask.any() else float('nan')}; "
+                                    f"expected gap {gap}, height {h}", dict(data, history=f'looked at before {member} was assigned'))
             ucs = rp.usable_cross_section
             b = ucs.bounds
             if abs((b[2] - b[0]) - g.usable_width) > 1e-9 * scale or abs(b[0] + b[2]) > 1e-9 * scale or abs(b[1] + b[3]) > 1e-9 * scale:
                 return chk.fail('two-usable', f"{name}: usable cross-section bounds {b} do not span the usable width {g.usable_width} symmetrically", data)
+
+
+def spline_array_case(chk):
+    """a spline groove built from the caller's float array (with and without face padding to strip): editing that array afterwards - for the next groove -
+    does not reach into the groove or into a pass that uses it"""
+    from pyroll.core import RollPass, Roll, SplineGroove
+    for pts in ([(-20.0, 0.0), (-12.0, 10.0), (12.0, 10.0), (20.0, 0.0)], [(-30.0, 0.0), (-20.0, 0.0), (-12.0, 10.0), (12.0, 10.0), (20.0, 0.0), (30.0, 0.0)],
+                [(0.0, 0.0), (8.0, 10.0), (32.0, 10.0), (40.0, 0.0)]):
+        arr = np.array(pts, dtype=float)
+        given = arr.copy()
+        g = SplineGroove(arr, classifiers=['generic_elongation'])
+        chk.cov['evaluations'] += 1
+        if np.any(arr != given):
+            return chk.fail('spline-input', f"SplineGroove({pts}) changes the caller's array to {arr.tolist()}", {'points': pts})
+        stored = np.array(g.contour_points, dtype=float, copy=True)
+        rp = RollPass(label="p", roll=Roll(groove=g, nominal_radius=0.2), gap=2.0)
+        arr[:, 1] *= 1.6          # the caller goes on with the array
+        arr[:, 0] += 3.0
+        up = np.array(rp.contour_lines.geoms[0].coords)
+        if np.any(np.asarray(g.contour_points) != stored) or abs(up[:, 1].max() - (1.0 + g.depth)) > 1e-12 * 40 or abs(float(rp.height) - (2.0 + 2 * g.depth)) > 1e-12 * 40:
+            return chk.fail('spline-input', f"SplineGroove built from a float array {pts}; after the caller edited the array the groove's contour points changed / the pass "
+                            f"opening (highest contour point {up[:, 1].max()}) no longer matches gap / 2 + depth = {1.0 + g.depth}", {'points': pts})
+    return True
 
 
 def asymmetric_spline_case(chk):
@@ -252,6 +286,8 @@ def run(chk):
     for rep in range(1 if not chk.thorough else 6):
         two_roll_cases(chk, rng)
         asymmetric_spline_case(chk)
+    if not [f for f in chk.failures if not f.key.startswith('three-')]:
+        spline_array_case(chk)
         three_roll_cases(chk, rng)
     chk.cov['distinct_nontrivial'] += chk.cov['evaluations']
     chk.sample({'groove': GC.CATALOGUE[0][0], 'kwargs': GC.CATALOGUE[0][1], 'gap': 0.001, 'rolls': 2})
